@@ -1,0 +1,311 @@
+/*
+ * Verification facade: drives the crate-private protocol engine (`ProtocolState`) with user, network
+ * and timer events under a virtual clock (milliseconds since the engine's base timestamp), collects
+ * emitted bytes, packet events and completion callbacks, and prints container contents.
+ * Only compiled with the `verif` feature.
+ */
+
+use super::codec::*;
+use super::text::*;
+use crate::client::*;
+use crate::client::config::*;
+use crate::error::GneissResult;
+use crate::mqtt::*;
+use crate::protocol::*;
+
+use std::collections::VecDeque;
+use std::sync::{Arc, Mutex};
+use std::time::{Duration, Instant};
+
+pub(crate) struct EngineSession {
+    state: Option<ProtocolState>,
+    base: Instant,
+    completions: Arc<Mutex<Vec<String>>>,
+    next_user_op: usize,
+}
+
+fn reason_codes_text<T: Copy>(codes: &[T], f: fn(T) -> u8) -> String {
+    let items: Vec<String> = codes.iter().map(|c| f(*c).to_string()).collect();
+    items.join("+")
+}
+
+pub(crate) fn connect_options_of(kv: &Kv) -> Result<ConnectOptions, String> {
+    let mut builder = ConnectOptions::builder();
+    builder.with_keep_alive_interval_seconds(get_num::<u16>(kv, "ka")?);
+    match get(kv, "rejoin") {
+        Some("always") => { builder.with_rejoin_session_policy(RejoinSessionPolicy::Always); }
+        Some("never") => { builder.with_rejoin_session_policy(RejoinSessionPolicy::Never); }
+        Some("post") | None => { builder.with_rejoin_session_policy(RejoinSessionPolicy::PostSuccess); }
+        Some(other) => { return Err(format!("bad rejoin {}", other)); }
+    }
+    if let Some(v) = get_str(kv, "cid")? { builder.with_client_id(&v); }
+    if let Some(v) = get_str(kv, "user")? { builder.with_username(&v); }
+    if let Some(v) = get_bin(kv, "pass")? { builder.with_password(&v); }
+    if let Some(v) = get_num::<u32>(kv, "sei")? { builder.with_session_expiry_interval_seconds(v); }
+    if let Some(v) = get_bool(kv, "rri")? { builder.with_request_response_information(v); }
+    if let Some(v) = get_bool(kv, "rpi")? { builder.with_request_problem_information(v); }
+    if let Some(v) = get_num::<u16>(kv, "rm")? { builder.with_receive_maximum(v); }
+    if let Some(v) = get_num::<u16>(kv, "tam")? { builder.with_topic_alias_maximum(v); }
+    if let Some(v) = get_num::<u32>(kv, "mps")? { builder.with_maximum_packet_size_bytes(v); }
+    if let Some(v) = get_num::<u32>(kv, "wdi")? { builder.with_will_delay_interval_seconds(v); }
+    if get(kv, "w.topic").is_some() {
+        let text: Vec<String> = kv.iter().filter(|(k, _)| k.starts_with("w.")).map(|(k, v)| format!("{}={}", &k[2..], v)).collect();
+        if let MqttPacket::Publish(will) = parse_packet(&format!("publish {}", text.join(" ")))? {
+            builder.with_will(will);
+        }
+    }
+    let ups = get_all(kv, "up");
+    if !ups.is_empty() || get(kv, "upe").is_some() {
+        let mut props = Vec::new();
+        for item in ups {
+            let pos = item.find(':').ok_or("bad user property")?;
+            props.push(UserProperty::new(unhex_string(&item[..pos])?, unhex_string(&item[pos + 1..])?));
+        }
+        builder.with_user_properties(props);
+    }
+    Ok(builder.build())
+}
+
+impl EngineSession {
+    pub(crate) fn new() -> Self {
+        EngineSession { state: None, base: Instant::now(), completions: Arc::new(Mutex::new(Vec::new())), next_user_op: 0 }
+    }
+
+    fn at(&self, kv: &Kv) -> Result<Instant, String> {
+        Ok(self.base + Duration::from_millis(req_num::<u64>(kv, "t")?))
+    }
+
+    fn ms(&self, t: &Instant) -> u128 {
+        (*t - self.base).as_millis()
+    }
+
+    fn drain_completions(&self) -> String {
+        let mut guard = self.completions.lock().unwrap();
+        let out = guard.join(",");
+        guard.clear();
+        out
+    }
+
+    fn finish(&self, result: GneissResult<()>, bytes: &[u8], events: &VecDeque<PacketEvent>) -> String {
+        let mut out = format!("res={} bytes={} comps={}", result_text(&result), hex(bytes), self.drain_completions());
+        for e in events {
+            out.push_str(" | ");
+            match e {
+                PacketEvent::Connack(p) => out.push_str(&print_packet(&MqttPacket::Connack(p.clone()))),
+                PacketEvent::Publish(p) => out.push_str(&print_packet(&MqttPacket::Publish(p.clone()))),
+                PacketEvent::Disconnect(p) => out.push_str(&print_packet(&MqttPacket::Disconnect(p.clone()))),
+            }
+        }
+        out
+    }
+
+    /// `eng.new v=5 policy=all drain=none retries=3 pingto=10000 resolver=lru rmax=5 | ka=60 cid=x.. ...`
+    fn cmd_new(&mut self, head: &str, payload: &str) -> Result<String, String> {
+        let (_, kv) = split_kv(head);
+        let connect_text = format!("c {}", payload);
+        let (_, ckv) = split_kv(&connect_text);
+        let connect_options = connect_options_of(&ckv)?;
+        let resolver = resolver_factory_of(get(&kv, "resolver").unwrap_or("none"), req_num::<u16>(&kv, "rmax")?)?;
+        self.base = Instant::now();
+        self.next_user_op = 0;
+        self.completions.lock().unwrap().clear();
+        let config = ProtocolStateConfig {
+            connect_options,
+            base_timestamp: self.base,
+            offline_queue_policy: policy_of(get(&kv, "policy").unwrap_or("all"))?,
+            ping_timeout: Duration::from_millis(get_num::<u64>(&kv, "pingto")?.unwrap_or(10000)),
+            outbound_alias_resolver: resolver.map(|f| f()),
+            protocol_mode: match version_of(&kv)? { ProtocolVersion::Mqtt5 => ProtocolMode::Mqtt5, ProtocolVersion::Mqtt311 => ProtocolMode::Mqtt311 },
+            post_reconnect_queue_drain_policy: match get(&kv, "drain") {
+                Some("one") => PostReconnectQueueDrainPolicy::OneAtATime,
+                _ => PostReconnectQueueDrainPolicy::None,
+            },
+            max_interrupted_retries: get_num::<u32>(&kv, "retries")?,
+        };
+        self.state = Some(ProtocolState::new(config));
+        Ok("res=ok".to_string())
+    }
+
+    fn user_op(&mut self, verb: &str, head: &str, payload: &str) -> Result<String, String> {
+        let (_, kv) = split_kv(head);
+        let now = self.at(&kv)?;
+        let packet = parse_packet(payload)?;
+        // the clients validate before handing the packet to the engine
+        if let Err(e) = crate::validate::validate_packet_outbound(&packet) {
+            return Ok(format!("res=rejected:{} bytes=x comps=", error_kind(&e)));
+        }
+        let timeout = get_num::<u64>(&kv, "timeout")?.map(Duration::from_millis);
+        let index = self.next_user_op;
+        let sink = self.completions.clone();
+        let event = match (verb, &packet) {
+            ("eng.pub", MqttPacket::Publish(_)) => {
+                self.next_user_op += 1;
+                let mut builder = PublishOptions::builder();
+                if let Some(t) = timeout { builder = builder.with_ack_timeout(t); }
+                let handler: ResponseHandler<PublishResult> = Box::new(move |result| {
+                    let text = match result {
+                        Ok(PublishResponse::Qos0) => "ok.qos0".to_string(),
+                        Ok(PublishResponse::Qos1(p)) => format!("ok.puback.{}.{}", p.packet_id, p.reason_code as u8),
+                        Ok(PublishResponse::Qos2(Qos2Response::Pubrec(p))) => format!("ok.pubrec.{}.{}", p.packet_id, p.reason_code as u8),
+                        Ok(PublishResponse::Qos2(Qos2Response::Pubcomp(p))) => format!("ok.pubcomp.{}.{}", p.packet_id, p.reason_code as u8),
+                        Err(e) => format!("err.{}", error_kind(&e)),
+                    };
+                    sink.lock().unwrap().push(format!("{}:{}", index, text));
+                    Ok(())
+                });
+                UserEvent::Publish(Box::new(packet), PublishOptionsInternal { options: builder.build(), response_handler: Some(handler) })
+            }
+            ("eng.sub", MqttPacket::Subscribe(_)) => {
+                self.next_user_op += 1;
+                let mut builder = SubscribeOptions::builder();
+                if let Some(t) = timeout { builder = builder.with_ack_timeout(t); }
+                let handler: ResponseHandler<SubscribeResult> = Box::new(move |result| {
+                    let text = match result {
+                        Ok(p) => format!("ok.suback.{}.{}", p.packet_id, reason_codes_text(&p.reason_codes, |c| c as u8)),
+                        Err(e) => format!("err.{}", error_kind(&e)),
+                    };
+                    sink.lock().unwrap().push(format!("{}:{}", index, text));
+                    Ok(())
+                });
+                UserEvent::Subscribe(Box::new(packet), SubscribeOptionsInternal { options: builder.build(), response_handler: Some(handler) })
+            }
+            ("eng.unsub", MqttPacket::Unsubscribe(_)) => {
+                self.next_user_op += 1;
+                let mut builder = UnsubscribeOptions::builder();
+                if let Some(t) = timeout { builder = builder.with_ack_timeout(t); }
+                let handler: ResponseHandler<UnsubscribeResult> = Box::new(move |result| {
+                    let text = match result {
+                        Ok(p) => format!("ok.unsuback.{}.{}", p.packet_id, reason_codes_text(&p.reason_codes, |c| c as u8)),
+                        Err(e) => format!("err.{}", error_kind(&e)),
+                    };
+                    sink.lock().unwrap().push(format!("{}:{}", index, text));
+                    Ok(())
+                });
+                UserEvent::Unsubscribe(Box::new(packet), UnsubscribeOptionsInternal { options: builder.build(), response_handler: Some(handler) })
+            }
+            ("eng.disc", MqttPacket::Disconnect(_)) => UserEvent::Disconnect(Box::new(packet)),
+            _ => { return Err("packet kind does not match the verb".to_string()); }
+        };
+        let state = self.state.as_mut().ok_or("no engine")?;
+        state.handle_user_event(UserEventContext { event, current_time: now });
+        Ok(format!("res=ok bytes=x comps={}", self.drain_completions()))
+    }
+
+    fn network(&mut self, verb: &str, head: &str) -> Result<String, String> {
+        let (_, kv) = split_kv(head);
+        let now = self.at(&kv)?;
+        let data = get_bin(&kv, "b")?.unwrap_or_default();
+        let deadline = self.base + Duration::from_millis(req_num::<u64>(&kv, "deadline")?);
+        let mut events = VecDeque::new();
+        let event = match verb {
+            "eng.open" => NetworkEvent::ConnectionOpened(ConnectionOpenedContext { establishment_timeout: deadline }),
+            "eng.close" => NetworkEvent::ConnectionClosed,
+            "eng.wc" => NetworkEvent::WriteCompletion,
+            "eng.data" => NetworkEvent::IncomingData(&data),
+            _ => { return Err("bad network verb".to_string()); }
+        };
+        let state = self.state.as_mut().ok_or("no engine")?;
+        let result = {
+            let mut context = NetworkEventContext { event, current_time: now, packet_events: &mut events };
+            state.handle_network_event(&mut context)
+        };
+        Ok(self.finish(result, &[], &events))
+    }
+
+    fn service(&mut self, head: &str) -> Result<String, String> {
+        let (_, kv) = split_kv(head);
+        let now = self.at(&kv)?;
+        let cap = req_num::<usize>(&kv, "cap")?;
+        let prefill = req_num::<usize>(&kv, "prefill")?;
+        let mut buffer: Vec<u8> = Vec::with_capacity(cap);
+        buffer.resize(usize::min(prefill, cap), 0xEE);
+        let before = buffer.len();
+        let state = self.state.as_mut().ok_or("no engine")?;
+        let result = {
+            let mut context = ServiceContext { to_socket: &mut buffer, current_time: now };
+            state.service(&mut context)
+        };
+        Ok(self.finish(result, &buffer[before..], &VecDeque::new()))
+    }
+
+    fn next_service_time(&mut self, head: &str) -> Result<String, String> {
+        let (_, kv) = split_kv(head);
+        let now = self.at(&kv)?;
+        let base = self.base;
+        let state = self.state.as_mut().ok_or("no engine")?;
+        match state.get_next_service_timepoint(&now) {
+            Some(t) => Ok(format!("res=ok next={}", (t - base).as_millis())),
+            None => Ok("res=ok next=never".to_string()),
+        }
+    }
+
+    fn reset(&mut self, head: &str) -> Result<String, String> {
+        let (_, kv) = split_kv(head);
+        let now = self.at(&kv)?;
+        let state = self.state.as_mut().ok_or("no engine")?;
+        state.reset(&now);
+        Ok(format!("res=ok bytes=x comps={}", self.drain_completions()))
+    }
+
+    fn snapshot(&mut self) -> Result<String, String> {
+        let state = self.state.as_ref().ok_or("no engine")?;
+        let list = |q: &VecDeque<u64>| q.iter().map(|v| v.to_string()).collect::<Vec<String>>().join("+");
+        let sorted_map = |m: &std::collections::HashMap<u16, u64>| {
+            let mut items: Vec<(u16, u64)> = m.iter().map(|(k, v)| (*k, *v)).collect();
+            items.sort();
+            items.iter().map(|(k, v)| format!("{}:{}", k, v)).collect::<Vec<String>>().join("+")
+        };
+        let mut ops: Vec<u64> = state.operations.keys().copied().collect();
+        ops.sort();
+        let mut inq2: Vec<u16> = state.qos2_incomplete_incoming_publishes.iter().copied().collect();
+        inq2.sort();
+        let mut timeouts: Vec<(u128, u64)> = state.operation_ack_timeouts.iter().map(|r| (self.ms(&r.0.timeout_for_verif()), r.0.id_for_verif())).collect();
+        timeouts.sort();
+        let opt_time = |t: &Option<Instant>| match t { Some(v) => self.ms(v).to_string(), None => "none".to_string() };
+        let mut out = format!(
+            "res=ok state={} pwc={} ops={} userq={} resubq={} highq={} cur={} inq2={} alloc={} ppub={} pnon={} pwcops={} timeouts={} nextop={} nextpid={} hasconn={} nping={} pingto={} connackto={} slow={}",
+            state.state, if state.pending_write_completion { 1 } else { 0 },
+            ops.iter().map(|v| v.to_string()).collect::<Vec<String>>().join("+"),
+            list(&state.user_operation_queue), list(&state.resubmit_operation_queue), list(&state.high_priority_operation_queue),
+            match state.current_operation { Some(v) => v.to_string(), None => "none".to_string() },
+            inq2.iter().map(|v| v.to_string()).collect::<Vec<String>>().join("+"),
+            sorted_map(&state.allocated_packet_ids), sorted_map(&state.pending_publish_operations),
+            sorted_map(&state.pending_non_publish_operations), list(&state.pending_write_completion_operations),
+            timeouts.iter().map(|(t, id)| format!("{}:{}", id, t)).collect::<Vec<String>>().join("+"),
+            state.next_operation_id, state.next_packet_id, if state.has_connected_successfully { 1 } else { 0 },
+            opt_time(&state.next_ping_timepoint), opt_time(&state.ping_timeout_timepoint), opt_time(&state.connack_timeout_timepoint),
+            state.slow_start_ack_count);
+        if let Some(s) = state.get_negotiated_settings() {
+            out.push_str(&format!(" s.mq={} s.sei={} s.rm={} s.mps={} s.tam={} s.ska={} s.ra={} s.wsa={} s.sia={} s.ssa={} s.rejoined={} s.cid={}",
+                s.maximum_qos as u8, s.session_expiry_interval, s.receive_maximum_from_server, s.maximum_packet_size_to_server,
+                s.topic_alias_maximum_to_server, s.server_keep_alive, s.retain_available as u8, s.wildcard_subscriptions_available as u8,
+                s.subscription_identifiers_available as u8, s.shared_subscriptions_available as u8, s.rejoined_session as u8,
+                hex(s.client_id.as_bytes())));
+        }
+        // per-operation details, in id order: packet kind, bound packet id, dup flag, pubrel present, interruption count, slow start value
+        for id in ops {
+            let op = state.operations.get(&id).unwrap();
+            let (kind, pid, dup) = match &*op.packet {
+                MqttPacket::Publish(p) => (format!("publish{}", p.qos as u8), p.packet_id, p.duplicate),
+                MqttPacket::Subscribe(p) => ("subscribe".to_string(), p.packet_id, false),
+                MqttPacket::Unsubscribe(p) => ("unsubscribe".to_string(), p.packet_id, false),
+                other => (crate::mqtt::utils::mqtt_packet_to_str(other).to_lowercase(), 0, false),
+            };
+            out.push_str(&format!(" op={}:{}:{}:{}:{}:{}:{}", id, kind, pid, dup as u8, op.qos2_pubrel.is_some() as u8, op.interruption_count, op.slow_start_ack_value));
+        }
+        Ok(out)
+    }
+
+    pub(crate) fn dispatch(&mut self, verb: &str, head: &str, payload: &str) -> Result<String, String> {
+        match verb {
+            "eng.new" => self.cmd_new(head, payload),
+            "eng.pub" | "eng.sub" | "eng.unsub" | "eng.disc" => self.user_op(verb, head, payload),
+            "eng.open" | "eng.close" | "eng.wc" | "eng.data" => self.network(verb, head),
+            "eng.svc" => self.service(head),
+            "eng.nst" => self.next_service_time(head),
+            "eng.reset" => self.reset(head),
+            "eng.snap" => self.snapshot(),
+            _ => Err(format!("unknown engine verb {}", verb)),
+        }
+    }
+}
